@@ -4,6 +4,9 @@ cd "$(dirname "$0")/.."
 ids=${@:-$(ls seeded | grep -v go.mod)}
 for id in $ids; do
   prop=${id%%-*}
+  # a seed may name the check that is expected to catch it (meta.json "check_with"), e.g. a schedule-dependent change filed under a sequential property
+  cw=$(python3 -c "import json,sys; print(json.load(open('seeded/$id/meta.json')).get('check_with',''))" 2>/dev/null)
+  [ -n "$cw" ] && prop=$cw
   out=$(MUT_TAIL=40 tools/mutcheck.sh $prop seeded/$id/patch.diff 2>&1)
   rc=$(echo "$out" | grep -o "exit=[0-9]*" | tail -1)
   sig=$(echo "$out" | grep -o 'signature=[^ ]*' | sort | uniq -c | sort -rn | head -2 | tr '\n' ' ')
